@@ -5,7 +5,7 @@ Workload B: pager histories (Hypothesis stateful machines) against RefPaging  - 
 """
 import hashlib
 
-from . import gen_lock, lockstep
+from . import gen_lock, lockstep, p08_hist
 from .harness import new_result, fail, bump
 
 PROP = 'C08'
@@ -16,8 +16,12 @@ PROPS = {'C08'}
 
 def init():
     lockstep.init()
+    p08_hist.init()
 
 def gen(rng, tier, index):
+    if index % 4 == 3:
+        return p08_hist.gen(rng, tier, index // 4)
+    index = index - index // 4 - 1 if index % 4 == 3 else index - index // 4
     if index % 8 < 5:
         scn = gen_lock.gen_wstep(rng, tier, index // 8 * 5 + index % 8)
         # hostile stores: aim pointers at the ROM / RAM boundary more often than the general generator does
@@ -39,6 +43,8 @@ def gen(rng, tier, index):
     return scn
 
 def run(scn):
+    if scn['kind'] in ('pager-sim', 'skool-memory'):
+        return p08_hist.run(scn)
     res = new_result()
     sigs = set()
     try:
@@ -50,14 +56,15 @@ def run(scn):
     return res
 
 def sample(scn, res):
+    if scn['kind'] in ('pager-sim', 'skool-memory'):
+        return {k: v for k, v in scn.items() if k != 'banks'}
     return {'kind': scn['kind'], 'machine': scn['machine'], 'slot': scn.get('slot'), 'steps': scn['steps'], 'ints': scn['ints'],
             'regs': scn['regs'], 'o7ffd': scn['mem'].get('o7ffd'), 'patches': scn['mem']['patches'][-1:]}
 
-shrink_candidates = gen_lock.shrink_candidates
-
-def extra_phases(tier, seed, total, jobs, budget_s):
-    from . import p08_hist
-    p08_hist.run_phase(tier, seed, total, jobs, budget_s)
+def shrink_candidates(scn):
+    if scn['kind'] in ('pager-sim', 'skool-memory'):
+        return p08_hist.shrink_candidates(scn)
+    return gen_lock.shrink_candidates(scn)
 
 def describe():
     return {
@@ -66,6 +73,6 @@ def describe():
                         'register range limits: 8-bit 0..255, SP/PC/MEMPTR 0..65535, IFF/HALT 0..1, IM 0..2'],
         'components': {'real': ['Simulator', 'CSimulator', 'CMIOSimulator', 'CCMIOSimulator', 'pagingtracer.Memory/PagingTracer', 'trace.Tracer._write_port', 'rzxplay.RZXTracer', 'skoolmacro.PagingTracer/AudioTracer128', 'skoolutils.Memory'],
                        'reference': ['RefPaging'], 'harness': ['World tracer', 'generators']},
-        'probes': ['paging_write_after_lock'],
+        'probes': ['paging_write_after_lock', 'write_after_lock', 'near_miss_port'],
         'design_ref': 'DESIGN.md section 5, C08',
     }
